@@ -285,6 +285,56 @@ def run(ck):
         if err > 2e-3:
             ck.violation("vacancy-mediated coefficients differ between equivalent descriptions: %.3g relative" % err,
                          {"crystal": nm, "redescribed": repr(crys2), "how": what, "L": [x.tolist() for x in L1], "L2": [x.tolist() for x in L2]}, key="c09-vm")
+    # ---------------- vacancy-mediated, several Wyckoff sets, pure re-ordering of the atom list -------------------------
+    # (same lattice, same k-mesh: agreement to rounding; every order in which a later-listed atom belongs to an
+    #  earlier Wyckoff set, so that "index of the set" and "index of its first site" differ)
+    from onsager import crystal as _cr
+    s3 = np.sqrt(3.0)
+    multi = [("sq2w", gen.named("sq2w")[0]),
+             ("rect3", _cr.Crystal(np.diag([1., 1.2]), [np.array([0., 0.]), np.array([.5, .3]), np.array([.5, .7])]))]
+    if not ck.quick:
+        multi.append(("omega3d", _cr.Crystal(np.array([[1., 0, 0], [-.5, s3 / 2, 0], [0, 0, .62]]).T,
+                                            [np.array([0., 0, 0]), np.array([1. / 3, 2. / 3, .5]), np.array([2. / 3, 1. / 3, .5])])))
+    nperm = 0
+    for nm, crys in multi:
+        chem = 0
+        net = gen.percolating_network(crys, chem, rng, maxshell=1, maxjumps=40)
+        if net is None: continue
+        cut, sl, jn = net
+        if len(sl) < 2: raise RuntimeError("harness: %s should have several Wyckoff sets" % nm)
+        d1 = vm.make(crys, chem, sl, jn, 1)
+        Nw = len(sl)
+        preV = np.array([rng.uniform(.5, 2) for _ in range(Nw)]); eneV = np.array([0.5 * w + rng.uniform(0, .2) for w in range(Nw)])
+        preS = np.array([rng.uniform(.5, 2) for _ in range(Nw)]); eneS = np.array([rng.uniform(0, .4) - 0.3 * w for w in range(Nw)])
+        preT0 = np.array([rng.uniform(.5, 2) for _ in jn]); eneT0 = np.array([rng.uniform(.9, 1.4) for _ in jn])
+        def data(dd, wm, tm):
+            th = dict(preV=np.array([preV[w] for w in wm]), eneV=np.array([eneV[w] for w in wm]),
+                      preS=np.array([preS[w] for w in wm]), eneS=np.array([eneS[w] for w in wm]),
+                      preSV=np.ones(dd.thermo.Nstars), eneSV=np.zeros(dd.thermo.Nstars),
+                      preT0=np.array([preT0[t] for t in tm]), eneT0=np.array([eneT0[t] for t in tm]))
+            th.update(dd.makeLIMBpreene(**th))
+            th["eneT2"] = th["eneT2"] - 0.3
+            return th
+        L1 = [np.array(x) for x in d1.Lij(*d1.preene2betafree(1.0, **data(d1, list(range(Nw)), list(range(len(jn))))))]
+        nat = len(crys.basis[chem])
+        orders = [list(range(nat))[::-1], list(range(1, nat)) + [0], [nat - 1] + list(range(nat - 1))]
+        for order in (orders[:2] if ck.quick else orders):
+            crys2 = _cr.Crystal(crys.lattice, [[crys.basis[chem][i] for i in order]], chemistry=crys.chemistry)
+            sl2 = crys2.sitelist(chem); jn2 = crys2.jumpnetwork(chem, cut)
+            m = match(crys, chem, sl, jn, crys2, sl2, jn2)
+            if m is None: skipped["no-match"] += 1; continue
+            wmap, tmap, sm = m
+            d2 = vm.make(crys2, chem, sl2, jn2, 1)
+            L2 = [np.array(x) for x in d2.Lij(*d2.preene2betafree(1.0, **data(d2, wmap, tmap)))]
+            nperm += 1
+            err = max(np.abs(a - b).max() for a, b in zip(L1, L2)) / np.abs(L1[0]).max()
+            ck.case(key=("vm-perm", nm, order, preV.round(10).tolist()), nontrivial=True, kind="vm:atom-order",
+                    sample={"crystal": nm, "order": order, "sitelist": [list(w) for w in sl2], "rel_err": float(err)} if nperm <= 2 else None)
+            if err > 1e-7:
+                ck.violation("vacancy-mediated coefficients depend on the order in which the atoms are listed: %.3g relative (sitelist %s vs %s)"
+                             % (err, [list(w) for w in sl], [list(w) for w in sl2]),
+                             {"crystal": nm, "order": order, "L": [x.tolist() for x in L1], "L2": [x.tolist() for x in L2]}, key="c09-vm-atom-order")
+    ck.extra["vm_atom_order_cases"] = nperm
     ck.extra["skipped"] = skipped
     ck.extra["interstitial_cases"] = nint
     ck.extra["vm_cases"] = nvm
